@@ -131,6 +131,7 @@ class Program:
         STD_ENUMS = {
             "Option": [("None", 0, 0), ("Some", 1, 1)],
             "Result": [("Ok", 0, 1), ("Err", 1, 1)],
+            "ControlFlow": [("Continue", 0, 1), ("Break", 1, 1)],
             "Ordering": [("Less", -1, 0), ("Equal", 0, 0), ("Greater", 1, 0)],
         }
         self.enums.update(STD_ENUMS)
